@@ -331,3 +331,26 @@ type HoldRecList struct {
 type HoldRecMap struct {
 	M RecMap
 }
+
+// a declared map type in front of two lists of one type (the map's type name sits in the type table too)
+type MapThenLists struct {
+	M  NamedMap
+	L1 []int32
+	L2 []int32
+	L3 []string
+	L4 []string
+}
+
+// a base type whose custom name sits on the pointer receiver, embedded by pointer and by value
+type PtrNamedBase struct{ ID int32 }
+
+func (*PtrNamedBase) HessianCodecName() string { return "com.example.PtrNamedBase" }
+
+type EmbPtrNamed struct {
+	*PtrNamedBase
+	X int32
+}
+type EmbValNamed struct {
+	PtrNamedBase
+	Y string
+}
